@@ -34,6 +34,8 @@ def run(ctx):
     ctx.assumptions += ["own labels of units are inputs (catalogue); a derived unit that declares no label is expected to print the unlabeled marker (docs/howto/new-units)"]
     extra = [(i, t, pre) for (i, t, pre, _l) in EXTRA]
     cat, pre = unitcat.extract(ctx, extra_units=extra)
+    for b in unitcat.check_prefixes(ctx, pre, "symbol"):
+        ctx.violation({"kind": "prefix", "prefix": b["prefix"]}, "the prefix %s is not printed with its SI / IEC symbol (read out of %s<Meters>)" % (b["prefix"], b["prefix"][0].upper() + b["prefix"][1:]), detail=b)
     for (i, _t, _p, own) in EXTRA:
         cat[i]["own_label"] = own
         cat[i]["header"] = "au/units/inches.hh"
